@@ -263,6 +263,21 @@ pub fn next_op(e: &Engine, rng: &mut Rng) -> Op {
     if e.sw.faults && per_recv.values().any(|n| *n >= 2) {
         table[23] += 14;
     }
+    // a transfer the admin re-sent by force has meanwhile failed: a recovery attempt is the interesting follow-up
+    if e.m.doomed.iter().any(|id| e.w.st.packets[*id].state == PState::Refunded) {
+        table[8] += 30;
+    } else if !e.m.doomed.is_empty() && table[6] > 0 {
+        table[6] += 30;
+    }
+    if e.sw.profile == Profile::ManyBatches {
+        // tight cycle: unstake a little, land on the deadline, submit
+        match e.last_kind {
+            "unstake" if pend_nonempty => table[3] += 300,
+            "to_deadline" if pend_nonempty => table[2] += 300,
+            "submit_batch" if !holders.is_empty() => table[1] += 300,
+            _ => {}
+        }
+    }
     match e.last_kind {
         "stray_callback" => {
             table[8] += 40; // recover
@@ -378,6 +393,7 @@ pub fn next_op(e: &Engine, rng: &mut Rng) -> Op {
             }
         }
         2 => Op::SubmitBatch { caller: if rng.chance(1, 2) { Who::User(rng.below(8) as u8) } else { who_any(rng) } },
+        3 if e.sw.profile == Profile::ManyBatches => Op::ToDeadline { which: 0, delta: *rng.pick(&[0i64, 0, 1]) },
         3 => {
             let which = if e.m.nominee.is_some() && rng.chance(1, 2) {
                 2
